@@ -435,9 +435,11 @@ def history(ctx, r, lines, expect, meta):
                 if r.random() < .1 and ref.labels:
                     nl[0] = r.choice(ref.labels)
                 k = r.choice([1, len(ref.rows), len(ref.rows), 2])
-                form = r.choice(['tuple', 'tuple', 'dict', 'SampleSet'])
+                form = r.choice(['tuple', 'tuple', 'dict', 'SampleSet', 'list of dicts', 'generator of dicts'])
                 if form == 'dict':
                     k = 1                  # a mapping of constants: one row, repeated for every sample
+                if form in ('list of dicts', 'generator of dicts') and k == 0:
+                    form = 'tuple'
                 plain = ref.vt == 'INTEGER' and k > 0 and r.random() < .4
                 nr = [gen_values(r, ref.vt, len(nl), boundary=plain) for _ in range(k)]
                 sort = r.random() < .5
@@ -446,12 +448,31 @@ def history(ctx, r, lines, expect, meta):
                     like = '{' + ', '.join(f'{v!r}: {(int(x) if ref.vt != "REAL" else float(x))!r}' for v, x in zip(nl, nr[0])) + '}'
                 elif form == 'SampleSet':
                     like = f'dimod.SampleSet.from_samples(({arr_src}, {nl!r}), {ref.vt!r}, energy=[7.0] * {k}, sort_labels=False)'
+                elif form in ('list of dicts', 'generator of dicts'):
+                    orders = [r.sample(range(len(nl)), len(nl)) for _ in range(k)]
+                    body = '[' + ', '.join('{' + ', '.join(f'{nl[j]!r}: {(int(nr[i][j]) if ref.vt != "REAL" else float(nr[i][j]))!r}' for j in orders[i]) + '}' for i in range(k)) + ']'
+                    like = body if form == 'list of dicts' else f'iter({body})'
                 else:
                     like = f'({arr_src}, {nl!r})'
                 code = f'out = dimod.append_variables(ss, {like}, sort_labels={sort})'
                 ctx.tick(f'append_vars {form}: ' + ('label clash' if any(v in ref.labels for v in nl) else 'one row per sample' if k == len(ref.rows)
                                                    else 'one row broadcast' if k == 1 and ref.rows else 'wrong number of rows'))
-                line = f'appendvars 0 0 {int(sort)} ' + ','.join(lab(v) for v in nl) + ' ' + ('|'.join(','.join(rat(x) for x in row) for row in nr) or '-')
+                rows_w = '|'.join(','.join(rat(x) for x in row) or '-' for row in nr) or '~'
+                if form == 'dict':
+                    wform = 'M!' + ','.join(f'{lab(v)}={rat(x)}' for v, x in zip(nl, nr[0])) + f'!{int(ref.vt == "REAL")}'
+                elif form == 'SampleSet':
+                    wform = f"S!{','.join(lab(v) for v in nl)}!{rows_w}!f64"
+                elif form in ('list of dicts', 'generator of dicts'):
+                    wform = ('Q' if form == 'list of dicts' else 'I') + f'!{k}' + ''.join(
+                        '!M!' + ','.join(f'{lab(nl[j])}={rat(nr[i][j])}' for j in orders[i]) + f'!{int(ref.vt == "REAL")}' for i in range(k))
+                elif plain:
+                    wform = f"T!pi64!2:{len(nl)}:{rows_w}!{','.join(lab(v) for v in nl)}"
+                else:
+                    wform = f"T!nf64!2:{len(nl)}:{rows_w}!{','.join(lab(v) for v in nl)}"
+                line = f'appendform 0 0 {int(sort)} {wform}'
+                if form in ('list of dicts', 'generator of dicts'):
+                    # the column order of the stacked dicts is the key order of the FIRST one
+                    nl, nr = [nl[j] for j in orders[0]], [[row[j] for j in orders[0]] for row in nr]
                 exp = ref.append_vars(nl, [[F(x) for x in row] for row in nr], sort)
             elif op in ('change', 'change_ip'):
                 vt = r.choice(['SPIN', 'BINARY', 'SPIN', 'BINARY', 'INTEGER'])
@@ -789,6 +810,345 @@ def as_samples_cases(ctx, r, lines, expect, meta, ncases):
             lines.append(f'assamples 1 d:{lab(labels[0])}=1|d:s:{"other".encode().hex()}=1'); expect.append('err'); meta.append(('as_samples', [code], None))
 
 
+# ------------------------------------------------------------------ as_samples: every dispatch overload (DimodModel/AsSamplesDispatch.lean)
+# A form is a nested tuple; `fpy` writes it as Python source, `fwire` in the prefix notation of `samplesetdriver asform`, `fdenote`
+# reads off what the input SAYS (one {label: value} per row), independently of dimod and of the model.
+
+DTN = {'b': 'bool', 'i8': 'int8', 'i16': 'int16', 'i32': 'int32', 'i64': 'int64', 'f32': 'float32', 'f64': 'float64'}
+DTW = {v: k for k, v in DTN.items()}
+DT_EDGE = {'i8': [127, -128, -127], 'i16': [128, 32767, -32768, 129], 'i32': [32768, 2 ** 31 - 1, -2 ** 31], 'i64': [2 ** 31, -2 ** 31 - 1, 2 ** 40, -2 ** 63]}
+
+
+def fval(r, dt, edge):
+    if dt == 'b':
+        return r.randint(0, 1)
+    if dt.startswith('i'):
+        if edge and r.random() < .3:
+            ok = [x for k in ('i8', 'i16', 'i32', 'i64') for x in DT_EDGE[k] if ('i8', 'i16', 'i32', 'i64').index(k) <= ('i8', 'i16', 'i32', 'i64').index(dt)]
+            return r.choice(ok)
+        return r.choice([-3, 0, 1, 2, 7, -1])
+    return r.choice([-3.0, 0.0, 1.0, 2.5, -0.125, 7.0, 0.75])
+
+
+def pynum(x, flt):
+    return repr(float(x)) if flt else repr(int(x))
+
+
+def farr_py(src, shape):
+    kind, dt = src
+    flt = dt.startswith('f')
+    if shape[0] == '0':
+        body = pynum(shape[1], flt) if dt != 'b' else repr(bool(shape[1]))
+        return body if kind == 'p' else f"np.array({body}, dtype='{DTN[dt]}')"
+    if shape[0] == '3':
+        return '[[[1]]]' if kind == 'p' else f"np.zeros((1, 2, 1), dtype='{DTN[dt]}')"
+    num = (lambda x: repr(bool(x))) if dt == 'b' else (lambda x: pynum(x, flt))
+    if shape[0] == '1':
+        body = '[' + ', '.join(num(x) for x in shape[1]) + ']'
+        return body if kind == 'p' else f"np.array({body}, dtype='{DTN[dt]}')"
+    w, rows = shape[1], shape[2]
+    body = '[' + ', '.join('[' + ', '.join(num(x) for x in row) + ']' for row in rows) + ']'
+    return body if kind == 'p' else f"np.array({body}, dtype='{DTN[dt]}').reshape({len(rows)}, {w})"
+
+
+def fpy(f):
+    t = f[0]
+    if t == 'M':
+        return '{' + ', '.join(f'{k!r}: {pynum(v, f[2])}' for k, v in f[1]) + '}'
+    if t == 'A':
+        return farr_py(f[1], f[2])
+    if t == 'T':
+        return f'({farr_py(f[1], f[2])}, {f[3]!r})'
+    if t == 'TM':
+        return '({' + ', '.join(f'{k!r}: {pynum(v, f[2])}' for k, v in f[1]) + '}, ' + repr(f[3]) + ')'
+    if t == 'TI':
+        return f'(iter([[0] * {len(f[1])}]), {f[1]!r})'
+    if t == 'TL':
+        return '(' + ''.join('[0, 1], ' for _ in range(f[1])) + ')'
+    if t == 'S':
+        labels, rows, dt = f[1], f[2], f[3]
+        return (f"dimod.SampleSet.from_samples((np.array({[[(float(x) if dt.startswith('f') else int(x)) for x in row] for row in rows]!r}, dtype='{DTN[dt]}').reshape({len(rows)}, {len(labels)}), "
+                f"{labels!r}), {'REAL' if dt.startswith('f') else 'INTEGER'!r}, energy=[0] * {len(rows)}, sort_labels=False)")
+    if t == 'I':
+        return 'iter([' + ', '.join(fpy(g) for g in f[1]) + '])'
+    if t == 'Q':
+        return '[' + ', '.join(fpy(g) for g in f[1]) + ']'
+    raise ValueError(t)
+
+
+def fshape_w(shape):
+    if shape[0] == '0':
+        return '0:' + rat(F(shape[1]))
+    if shape[0] == '1':
+        return '1:' + (','.join(rat(F(x)) for x in shape[1]) or '-')
+    if shape[0] == '2':
+        return f'2:{shape[1]}:' + ('|'.join(','.join(rat(F(x)) for x in row) or '-' for row in shape[2]) or '~')
+    return '3'
+
+
+def fitems_w(items):
+    return ','.join(f'{lab(k)}={rat(F(v))}' for k, v in items) or '-'
+
+
+def flabs_w(labels):
+    return ','.join(lab(v) for v in labels) or '-'
+
+
+def fwire(f):
+    t = f[0]
+    if t == 'M':
+        return f'M!{fitems_w(f[1])}!{int(f[2])}'
+    if t == 'A':
+        return f'A!{f[1][0]}{f[1][1]}!{fshape_w(f[2])}'
+    if t == 'T':
+        return f'T!{f[1][0]}{f[1][1]}!{fshape_w(f[2])}!{flabs_w(f[3])}'
+    if t == 'TM':
+        return f'TM!{fitems_w(f[1])}!{int(f[2])}!{flabs_w(f[3])}'
+    if t == 'TI':
+        return f'TI!{flabs_w(f[1])}'
+    if t == 'TL':
+        return f'TL!{f[1]}'
+    if t == 'S':
+        return f"S!{flabs_w(f[1])}!{'|'.join(','.join(rat(F(x)) for x in row) or '-' for row in f[2]) or '~'}!{f[3]}"
+    return f"{t}!{len(f[1])}" + ''.join('!' + fwire(g) for g in f[1])
+
+
+def frows(shape):
+    if shape[0] == '0':
+        return [[shape[1]]], 1
+    if shape[0] == '1':
+        return ([list(shape[1])], len(shape[1])) if shape[1] else ([], 0)
+    if shape[0] == '2':
+        return [list(x) for x in shape[2]], shape[1]
+    return None, 0
+
+
+def fdenote(f):
+    """one list of (label, value) per row the input denotes; None where the input is malformed (no meaning)"""
+    t = f[0]
+    if t == 'M':
+        return [list(f[1])]
+    if t in ('A', 'T'):
+        rows, w = frows(f[2])
+        labels = list(range(w)) if t == 'A' else list(f[3])
+        if rows is None or any(len(row) != len(labels) for row in rows) or len(set(map(lab, labels))) != len(labels):
+            return None
+        return [list(zip(labels, row)) for row in rows]
+    if t == 'TM':
+        d = dict(f[1])
+        if any(v not in d for v in f[3]) or len(set(map(lab, f[3]))) != len(f[3]):
+            return None
+        return [[(v, d[v]) for v in f[3]]]
+    if t == 'S':
+        return [list(zip(f[1], row)) for row in f[2]]
+    if t == 'Q' and not any(g[0] == 'M' for g in f[1]):
+        if not all(g[0] == 'A' and g[2][0] == '1' and len(g[2][1]) == len(f[1][0][2][1]) for g in f[1]):
+            return None
+        return [list(zip(range(len(g[2][1])), g[2][1])) for g in f[1]] if f[1] and f[1][0][2][1] else []
+    if t in ('I', 'Q'):
+        out = []
+        for g in f[1]:
+            d = fdenote(g)
+            if d is None or not d:
+                return None       # an element without rows has no labels: the stacking loop has nothing to align it by (refused as coded)
+            out += d
+        if any({lab(k) for k, _ in row} != {lab(k) for k, _ in out[0]} for row in out):
+            return None
+        return out
+    return None
+
+
+def fvalues(f):
+    t = f[0]
+    if t in ('M', 'TM'):
+        return [v for _, v in f[1]]
+    if t in ('A', 'T'):
+        rows, _ = frows(f[2])
+        return [x for row in (rows or []) for x in row]
+    if t == 'S':
+        return [x for row in f[2] for x in row]
+    if t in ('I', 'Q'):
+        return [x for g in f[1] for x in fvalues(g)]
+    return []
+
+
+def gen_arr(r, labels_n, m, edge):
+    kind = r.choice(['p', 'n'])
+    dt = r.choice(['i64', 'i64', 'f64']) if kind == 'p' else r.choice(['b', 'i8', 'i16', 'i32', 'i64', 'f32', 'f64'])
+    return (kind, dt), [[fval(r, dt, edge) for _ in range(labels_n)] for _ in range(m)]
+
+
+def gen_elem(r, labels, edge, depth=0):
+    """one samples-like over `labels` (possibly in another order): any overload"""
+    n = len(labels)
+    k = r.random()
+    perm = r.sample(labels, n) if r.random() < .6 else list(labels)
+    if k < .3:
+        flt = r.random() < .3
+        return ('M', [(v, fval(r, 'f64' if flt else 'i64', edge)) for v in perm], flt)
+    if k < .55:
+        m = r.choice([1, 1, 2, 3, 0])
+        src, rows = gen_arr(r, n, m, edge)
+        if m == 0 and src[0] == 'p':
+            return ('T', ('p', 'f64'), ('1', []), perm)          # `[]`: NumPy reads a 1-d float64 array of size 0
+        if n == 0 and src[0] == 'p':
+            src = ('p', 'f64')                                    # `[[], []]`: float64
+        if m == 1 and r.random() < .5 and n:
+            return ('T', src, ('1', rows[0]), perm)
+        return ('T', src, ('2', n, rows), perm)
+    if k < .7:
+        m = r.choice([1, 2, 3])
+        dt = r.choice(['i8', 'i32', 'i64', 'f32', 'f64'])
+        return ('S', perm, [[fval(r, dt, edge) for _ in range(n)] for _ in range(m)], dt)
+    if k < .78:
+        flt = r.random() < .3
+        extra = [('zz', 1)] if r.random() < .3 else []
+        items = [(v, fval(r, 'f64' if flt else 'i64', edge)) for v in r.sample(labels, n)] + extra
+        return ('TM', items, flt, perm)
+    if k < .9 and depth < 2:
+        g = [gen_elem(r, labels, edge, depth + 1) for _ in range(r.choice([0, 1, 2, 2, 3]))]
+        return (r.choice(['I', 'I', 'Q']), g)
+    # unlabelled rows only make sense when the labels are range(n)
+    if labels == list(range(n)):
+        m = r.choice([1, 2])
+        src, rows = gen_arr(r, n, m, edge)
+        if n == 0 and src[0] == 'p':
+            src = ('p', 'f64')
+        return ('A', src, ('2', n, rows) if (m > 1 or r.random() < .5 or not n) else ('1', rows[0]))
+    flt = r.random() < .3
+    return ('M', [(v, fval(r, 'f64' if flt else 'i64', edge)) for v in perm], flt)
+
+
+def fix_list(r, f, labels, edge):
+    """a list is dispatched to the iterator overload only if it holds a mapping; otherwise NumPy reads it as an array: then only
+    rows are generated (what NumPy makes of lists of tuples / sample sets is not dimod's business)"""
+    if f[0] == 'Q' and not any(g[0] == 'M' for g in f[1]):
+        n = len(labels)
+        if labels == list(range(n)) and n and r.random() < .6:
+            kinds = [r.choice([('p', 'i64'), ('p', 'f64'), ('n', 'i8'), ('n', 'i16'), ('n', 'f32')]) for _ in range(r.choice([1, 2, 3]))]
+            return ('Q', [('A', k, ('1', [fval(r, k[1], edge) for _ in range(n)])) for k in kinds])
+        flt = r.random() < .3
+        g = [fix_list(r, x, labels, edge) for x in f[1]]
+        g.insert(r.randrange(len(g) + 1), ('M', [(v, fval(r, 'f64' if flt else 'i64', edge)) for v in r.sample(labels, n)], flt))
+        return ('Q', g)
+    if f[0] in ('I', 'Q'):
+        return (f[0], [fix_list(r, g, labels, edge) for g in f[1]])
+    return f
+
+
+def gen_malformed(r, labels, edge):
+    n = len(labels)
+    k = r.randrange(12)
+    src, rows = gen_arr(r, n, 2, edge)
+    if k == 0:
+        return ('TL', r.choice([0, 1, 3])), 'tuple of the wrong length'
+    if k == 1:
+        return ('TI', list(labels)), '(iterator, labels)'
+    if k == 2:
+        return ('T', src, ('2', n, rows), list(labels) + ['extra']), 'more labels than columns'
+    if k == 3 and n:
+        return ('T', src, ('2', n, rows), list(labels)[:-1]), 'fewer labels than columns'
+    if k == 4 and n:
+        return ('T', src, ('2', n, rows), [labels[0]] * n), 'repeated labels'
+    if k == 5:
+        return ('A', src, ('3',)), 'three dimensions'
+    if k == 6 and n >= 1:
+        return ('A', ('p', 'i64'), ('2', n, [[1] * n, [1] * (n + 1)])), 'ragged rows'
+    if k == 7 and n:
+        return ('I', [fix_list(r, gen_elem(r, labels, edge, 2), labels, edge), ('M', [(v, 1) for v in labels[:-1]] + [('other', 1)], False), ('TI', [])]), 'rows over different variables'
+    if k == 8:
+        return ('T', ('n', 'f64'), ('2', 0, [[], []]), list(labels)), 'empty rows with labels'
+    if k == 9:
+        return ('T', ('n', 'i8'), ('2', n, []), list(labels) + (['more'] if r.random() < .5 else [])), 'no rows with labels'
+    if k == 10 and n:
+        return ('TM', [(v, 1) for v in labels[:-1]], False, list(labels)), '(mapping, labels) lacking a label'
+    return ('I', [fix_list(r, gen_elem(r, labels, edge, 2), labels, edge), ('TL', 1)]), 'failing element after a good one'
+
+
+def cast_ok(vals, dt):
+    if dt is None:
+        return True
+    if dt.startswith('f'):
+        return all(abs(v) <= 2 ** 20 for v in vals)
+    if dt == 'b':
+        return False
+    bits = int(dt[1:])
+    return all(float(v).is_integer() and -2 ** (bits - 1) <= v < 2 ** (bits - 1) for v in vals)
+
+
+def as_forms_cases(ctx, r, lines, expect, meta, ncases):
+    for _ in range(ncases):
+        pool = r.choice(POOLS + [list(range(6))] * 3)
+        n = min(r.choice([0, 1, 2, 2, 3, 3, 4]), len(pool))
+        labels = list(range(n)) if pool == list(range(6)) else r.sample(pool, n)
+        edge = r.random() < .4
+        if r.random() < .25:
+            form, icls = gen_malformed(r, labels, edge)
+        else:
+            form = gen_elem(r, labels, edge) if r.random() < .4 else (r.choice(['I', 'Q']), [gen_elem(r, labels, edge, 1) for _ in range(r.choice([1, 2, 2, 3, 4]))])
+            form = fix_list(r, form, labels, edge)
+            icls = {'M': 'dict', 'A': 'array-like', 'T': '(array, labels)', 'TM': '(dict, labels)', 'S': 'SampleSet', 'I': 'iterator', 'Q': 'list'}[form[0]]
+        vals = fvalues(form)
+        dt = r.choice([None, None, None, 'f64', 'f32', 'i64', 'i32', 'i16', 'i8'])
+        if not cast_ok(vals, dt):
+            dt = None
+        cp, order, lv = r.random() < .3, r.random() < .2, r.random() < .35
+        kw = (f", dtype='{DTN[dt]}'" if dt else '') + (', copy=True' if cp else '') + (", order='F'" if order else '') + (', labels_type=dimod.variables.Variables' if lv else '')
+        code = f'arr, labs = dimod.as_samples({fpy(form)}{kw})'
+        env = {}
+        try:
+            with warnings.catch_warnings():
+                warnings.simplefilter('ignore')
+                exec(PRE + code, env)
+            arr, labs = env['arr'], env['labs']
+            got = (f"ok {int(isinstance(labs, Variables))};{DTW.get(arr.dtype.name, arr.dtype.name)};{arr.shape[0]}x{arr.shape[1]};{flabs_w(list(labs))};"
+                   + ('|'.join(','.join(rat(x) for x in row) or '-' for row in arr.tolist()) or '-'))
+            ok = True
+        except ValueError as e:
+            got, ok, err = 'err value', False, e
+        except TypeError as e:
+            got, ok, err = 'err type', False, e
+        except Exception as e:  # noqa
+            got, ok, err = f'err {type(e).__name__}', False, e
+        ctx.tick('as_samples dispatch ' + icls + ('' if ok else ':raises'))
+        for t in {g[0] for g in ([form] + (list(form[1]) if form[0] in 'IQ' else []))}:
+            ctx.tick('as_samples overload ' + {'M': '_as_samples_dict', 'A': 'as_samples (array-like)', 'T': '_as_samples_tuple', 'TM': '_as_samples_tuple (mapping, labels)',
+                                                'TI': '_as_samples_tuple (iterator)', 'TL': '_as_samples_tuple (length)', 'S': '_as_samples_sampleset',
+                                                'I': '_as_samples_iterator', 'Q': 'as_samples (sequence with mappings / of rows)'}[t])
+        for a in (['dtype'] if dt else []) + (['copy'] if cp else []) + (['order'] if order else []) + (['labels_type'] if lv else []):
+            ctx.tick('as_samples argument ' + a)
+        ctx.case(('as_samples dispatch', code), nontrivial=bool(vals))
+        # property, independent of the model: every value of the result is the value the input gives that label in that row,
+        # nothing is lost or invented; a well-formed input is accepted
+        den = fdenote(form)
+        bad = None
+        if den is not None and not ok and not any(v == -2 ** 63 for v in vals):
+            bad = f'well-formed input refused: {type(err).__name__}: {err}'
+        elif den is not None and ok:
+            gl = list(labs)
+            if arr.shape[0] != len(den) or (den and {lab(v) for v in gl} != {lab(k) for k, _ in den[0]}) or len(gl) != arr.shape[1]:
+                bad = f'shape {arr.shape}, labels {gl!r}: the input has {len(den)} rows over {[k for k, _ in den[0]] if den else []!r}'
+            else:
+                for i, row in enumerate(den):
+                    for k, v in row:
+                        if F(arr[i, gl.index(k)].item()) != F(v):
+                            bad = f'row {i}: value of {k!r} is {arr[i, gl.index(k)]!r}, the input says {v!r}'
+        if bad:
+            ctx.fail('property', 'dimod.as_samples', icls, bad, repro=PRE + code + f'\nprint(arr, labs)\nassert False, {bad!r}', detail=dict(source=code))
+            continue
+        lines.append(f"asform {dt or '-'} {int(cp)} {int(order)} {int(lv)} {fwire(form)}")
+        expect.append(got)
+        meta.append(('as_samples', [code], None))
+        # the same input without the keyword arguments that must not matter
+        if ok and (cp or order) and den is not None:
+            kw2 = (f", dtype='{DTN[dt]}'" if dt else '') + (', labels_type=dimod.variables.Variables' if lv else '')
+            env2 = {}
+            exec(PRE + f'arr, labs = dimod.as_samples({fpy(form)}{kw2})', env2)
+            if env2['arr'].tolist() != arr.tolist() or list(env2['labs']) != list(labs) or env2['arr'].dtype != arr.dtype:
+                ctx.fail('property', 'dimod.as_samples', 'copy / order arguments', f'copy={cp}, order={"F" if order else "C"} changed the result of {code}',
+                         repro=PRE + code + f'\na2, l2 = dimod.as_samples({fpy(form)}{kw2})\nassert a2.tolist() == arr.tolist() and list(l2) == list(labs)', detail=dict(source=code))
+
+
 # ------------------------------------------------------------------ deferred (future-backed) sample sets
 
 def lazy_cases(ctx, r, lines, expect, meta, ncases):
@@ -924,6 +1284,7 @@ def run(ctx):
         if len([f for f in ctx.failures if f['kind'] == 'property']) >= 6:
             break
     as_samples_cases(ctx, r, lines, expect, meta, ctx.scale(400, 6000))
+    as_forms_cases(ctx, r, lines, expect, meta, ctx.scale(1500, 20000))
     lazy_cases(ctx, r, lines, expect, meta, ctx.scale(600, 8000))
     slice_cases(ctx, r, lines, expect, meta)
     got = run_driver('samplesetdriver', lines)
